@@ -414,7 +414,7 @@ def run_texts(spec, acc, api):
 
 # ------------------------------------------------------------------ context-independent columns on long lines
 
-FAULTS = ['aa + @ bb', 'aa +', 'fn(1 2)', '(aa + bb', 'aa bb', 'fn(aa,', '1 + * 2', "aa + 'x", 'aa + )', 'fn(aa))', '!', 'aa <= <= bb', '[xx', 'aa +   @']
+FAULTS = ['f f', 'e e', 'n n', 'if if', 'r r', 'le le', 'in in', 'or or', 'aa + @ bb', 'aa +', 'fn(1 2)', '(aa + bb', 'aa bb', 'fn(aa,', '1 + * 2', "aa + 'x", 'aa + )', 'fn(aa))', '!', 'aa <= <= bb', '[xx', 'aa +   @']
 
 
 def ref_fault(e):
